@@ -117,6 +117,23 @@ def run(repo, rep, tier):
     # the duplicate check of an i18n:name consults the translation it is in
     L.innermost_rule(repo, rep, "R11.5", ("chameleon.compiler.Compiler",),
                      only=("_translations",))
+    # in text mode '&...;' inside ${...} is no entity: a valid expression
+    # is not rejected, the error token is the text as written (C06)
+    from . import c06 as _c06
+    L.borrow(repo, rep, "R11.5", "C06", _c06._decode, ("decode-flag",))
+    # every token the tokenizers make carries the file name they were given
+    # (a deferred error is pickled with its token: the name is not added
+    # later as for compile-time errors)
+    for tq in ("chameleon.tokenize.iter_xml", "chameleon.tokenize.iter_text"):
+        tf = repo.func(tq)
+        prm = [x.arg for x in tf.node.args.args]
+        toks = [c for c in ast.walk(tf.node) if isinstance(c, ast.Call)
+                and src(c.func) == "Token"]
+        okf = bool(toks) and "filename" in prm and all(
+            any(src(a_) == "filename" for a_ in list(c.args) +
+                [k.value for k in c.keywords]) for c in toks)
+        rep.check(okf, "R11.4", tq, "tokens are stamped with the file name",
+                  construct="token-filename-forwarded", where=L.where(tf))
     L.state_rule(repo, rep)
 
 
